@@ -147,6 +147,7 @@ class MoveMachine(e2.Machine):
         self.mode = mode          # 'int': the base object is built from Python int coordinates
         self.name = '%s#%d%s' % (kind, idx, '' if mode == 'float' else '/int')
         self.max_depth = depth
+        self.reversed_form = False
         self.full_sigma = True
         self.probes0 = PROBES
         self.ppts0 = probe_points(base)
@@ -176,6 +177,8 @@ class MoveMachine(e2.Machine):
         lib.MODE = self.mode
         try:
             recv = lib.to_lib(self.base)
+            if self.reversed_form:
+                recv = lib.construct(self.kind, lambda: -recv)      # the same point set, built in reversed form
         finally:
             lib.MODE = 'float'
         ret = None
@@ -232,6 +235,8 @@ class MoveMachine(e2.Machine):
             lib.MODE = self.mode
             try:
                 f = lib.to_lib(translate(self.base, t))
+                if self.reversed_form:
+                    f = -f
             finally:
                 lib.MODE = 'float'
             probes = [lib.to_lib(translate(p, t)) for p in self.probes0]
@@ -317,6 +322,15 @@ def machines(tier):
 
 
 def _machines(tier):
+    ms = __machines(tier)
+    rv = MoveMachine('ConvexPolygon', 1, BASES['ConvexPolygon'][1], DEPTHS[tier]['polygon'] - 1)
+    rv.reversed_form = True
+    rv.name = 'ConvexPolygon#1/negated'
+    ms.append(rv)
+    return ms
+
+
+def __machines(tier):
     ms = []
     for kind, bases in BASES.items():
         cls = 'polygon' if kind == 'ConvexPolygon' else ('polyhedron' if kind == 'ConvexPolyhedron' else 'flat')
